@@ -17,6 +17,8 @@ REQUIRED = ["DaeVerif.C07.Props." + n for n in (
     "reject_beats_stale_cache",
     "reask_bounded_optimistic",
     "controller_steps_as_modelled",
+    "multi_question_query_is_refused",
+    "single_question_query_is_handled",
     "request_match_is_first_match",
     "first_match_is_first",
     "name_case_and_trailing_dot",
@@ -180,7 +182,8 @@ def run(ctx):
                  "ask.tcp-fallback-used": 50, "answer.additional-section-filled": 500, "answer.ttl-0": 100,
                  "answer.a-record-without-address": 100, "upstream.does-not-resolve": 5, "cfg.many-upstreams": 1,
                  "ask.repeats-earlier-question": 300, "upstream.shares-address.differs-in-hostname": 30,
-                 "ask.upstream-queries.3": 100, "ask.reply.answers": 300},
+                 "ask.upstream-queries.3": 100, "ask.reply.answers": 300, "ask.two-questions": 40,
+                 "cfg.ip-version-prefer": 5, "ask.qtype-from-key-table": 100},
         "c07d": {"op.dq": 500, "dq.decision.upstream": 200, "dq.decision.passthrough": 200},
     }
     if not any(os.environ.get(v) for v in ("C07_NCFG", "C07_NCFG_CTL")):
